@@ -501,7 +501,13 @@ func (vfs *OrefaFS) Mkdir(name string, perm fs.FileMode) error {
 
 	if !parentOk {
 		for !parentOk {
-			dirName, _ = avfs.SplitAbs(vfs, dirName)
+			parentName, _ := avfs.SplitAbs(vfs, dirName)
+			if parentName == dirName {
+				// the volume of the path does not exist.
+				return &fs.PathError{Op: op, Path: name, Err: vfs.err.NoSuchDir}
+			}
+
+			dirName = parentName
 			parent, parentOk = vfs.nodes[dirName]
 		}
 
@@ -566,7 +572,13 @@ func (vfs *OrefaFS) MkdirAll(path string, perm fs.FileMode) error {
 
 		ds = append(ds, dirName)
 
-		dirName, _ = avfs.SplitAbs(vfs, dirName)
+		parentName, _ := avfs.SplitAbs(vfs, dirName)
+		if parentName == dirName {
+			// the volume of the path does not exist : there is no directory to create anything in.
+			return &fs.PathError{Op: op, Path: path, Err: vfs.err.NoSuchDir}
+		}
+
+		dirName = parentName
 	}
 
 	for i := len(ds) - 1; i >= 0; i-- {
@@ -782,7 +794,11 @@ func (vfs *OrefaFS) RemoveAll(path string) error {
 		vfs.mu.Lock()
 		defer vfs.mu.Unlock()
 
-		root := vfs.nodes[absPath]
+		root, ok := vfs.nodes[absPath]
+		if !ok {
+			// the volume of the path does not exist, which is not an error.
+			return nil
+		}
 
 		verifYield(&root.mu, true)
 		root.mu.Lock()
